@@ -395,6 +395,11 @@ func (s *Store) lookupSecretInternal(ctx context.Context, name string) (Secret, 
 		ch := s.single.DoChan("lookup:"+name, func() (any, error) {
 			sv, err := s.client.Get(ctx, name)
 			if err != nil {
+				if ctx.Err() != nil {
+					// The caller that issued this request gave up on it. Callers
+					// sharing the request whose own contexts are live may retry.
+					err = abandonedLookupError{err}
+				}
 				return nil, fmt.Errorf("lookup %q: %w", name, err)
 			}
 
@@ -426,7 +431,11 @@ func (s *Store) lookupSecretInternal(ctx context.Context, name string) (Secret, 
 		if err == nil {
 			return v.(Secret), nil
 		} else if errors.Is(err, context.DeadlineExceeded) || errors.Is(err, context.Canceled) {
-			if ctx.Err() == nil {
+			// Only retry when the request was abandoned by the caller that issued
+			// it: a failure reported by the service is final, even if it looks
+			// like a timeout (retrying it would loop until our own context ends).
+			var abandoned abandonedLookupError
+			if ctx.Err() == nil && errors.As(err, &abandoned) {
 				// This wasn't us timing out, try again.
 				continue
 			}
@@ -436,6 +445,13 @@ func (s *Store) lookupSecretInternal(ctx context.Context, name string) (Secret, 
 		return nil, err
 	}
 }
+
+// abandonedLookupError marks the failure of a lookup request whose issuing
+// caller's context ended while it was in flight, as opposed to a failure
+// reported by the service.
+type abandonedLookupError struct{ error }
+
+func (e abandonedLookupError) Unwrap() error { return e.error }
 
 // A Secret is a function that fetches the current active value of a secret.
 // The caller should not cache the value returned; the function does not block
